@@ -11,6 +11,56 @@ VALS = ["", "-1", "0", "1", "4294967296", "18446744073709551616", "0xffffffff", 
         "1-7", "0-1", "2", "0x00000001", "Group", "%s%n", "&amp;", "é"]
 VERS = ["1.0", "2.0", "2.5", "3.0", "4.0", "", "abc", "2", "0.9", "3.0.1"]
 
+DOCTYPES = ["", "<!DOCTYPE topology>", '<!DOCTYPE topology SYSTEM "">', '<!DOCTYPE topology SYSTEM "hwloc.dtd">', '<!DOCTYPE topology SYSTEM "hwloc2.dtd">',
+            '<!DOCTYPE foo SYSTEM "hwloc2.dtd">', '<!DOCTYPE topology PUBLIC "-//x//y" "hwloc2.dtd">', '<!DOCTYPE topology [ <!ENTITY a "b"> ]>',
+            '<!DOCTYPE topologydiff SYSTEM "hwloc2-diff.dtd">', "<!DOCTYPE topologydiff>", "<!DOCTYPE", "<!DOCTYPE topology SYSTEM \"hwloc2.dtd\"",
+            '<!DOCTYPE topology SYSTEM "hwloc2.dtd"><!DOCTYPE topology SYSTEM "hwloc2.dtd">']
+SETS = 'cpuset="0x00000001" complete_cpuset="0x00000001" nodeset="0x00000001" complete_nodeset="0x00000001"'
+# one plausible attribute list per object type (hwloc/topology-xml.c hwloc__xml_import_object_attr)
+TYPE_TEMPLATES = [
+    'type="Machine" os_index="0" ' + SETS + ' allowed_cpuset="0x00000001" allowed_nodeset="0x00000001" gp_index="1"',
+    'type="Package" os_index="0" ' + SETS + ' gp_index="3"',
+    'type="Die" os_index="0" ' + SETS + ' gp_index="3"',
+    'type="Core" os_index="0" ' + SETS + ' gp_index="3"',
+    'type="PU" os_index="0" ' + SETS + ' gp_index="3"',
+    'type="L1Cache" ' + SETS + ' gp_index="3" cache_size="32768" depth="1" cache_linesize="64" cache_associativity="8" cache_type="1"',
+    'type="L2Cache" ' + SETS + ' gp_index="3" cache_size="1048576" depth="2" cache_linesize="64" cache_associativity="8" cache_type="0"',
+    'type="L3Cache" ' + SETS + ' gp_index="3" cache_size="1048576" depth="3" cache_linesize="64" cache_associativity="0" cache_type="0"',
+    'type="L1iCache" ' + SETS + ' gp_index="3" cache_size="32768" depth="1" cache_linesize="64" cache_associativity="8" cache_type="2"',
+    'type="Group" ' + SETS + ' gp_index="3" kind="0" subkind="0" dont_merge="1" depth="0"',
+    'type="NUMANode" os_index="0" ' + SETS + ' gp_index="3" local_memory="1024"',
+    'type="MemCache" ' + SETS + ' gp_index="3" cache_size="1024" depth="1" cache_linesize="64" cache_associativity="1" cache_type="0"',
+    'type="Bridge" gp_index="3" bridge_type="0-1" depth="0" bridge_pci="0000:[00-ff]"',
+    'type="Bridge" gp_index="3" bridge_type="1-1" depth="1" bridge_pci="0000:[01-02]" pci_busid="0000:00:01.0" pci_type="0604 [8086:1234] [0000:0000] 01" pci_link_speed="0.25"',
+    'type="PCIDev" gp_index="3" pci_busid="0000:01:00.0" pci_type="0200 [8086:1234] [8086:0000] 01" pci_link_speed="0.25"',
+    'type="OSDev" gp_index="3" name="eth0" osdev_type="2"',
+    'type="OSDev" gp_index="3" name="sda" subtype="Disk" osdev_type="1"',
+    'type="Misc" gp_index="3" name="misc"',
+    'type="Unknown" gp_index="3"',
+    'type="System" os_index="0" ' + SETS + ' gp_index="3"',
+    'type="Cache" ' + SETS + ' gp_index="3" cache_size="1024" depth="2" cache_linesize="64" cache_associativity="8" cache_type="0"',
+    'type="Socket" os_index="0" ' + SETS + ' gp_index="3"',
+]
+GARBAGE = ["zz", "", "-1", "99999999999999999999"]
+
+
+def _templates():
+    res = []
+    for t in TYPE_TEMPLATES:
+        res.append(t)
+        attrs = list(ATTR0.finditer(t))
+        for a in attrs[1:]:
+            if a.group(1) in ("complete_cpuset", "complete_nodeset", "gp_index"):
+                continue
+            for g in GARBAGE:
+                res.append(t[:a.start(2)] + g + t[a.end(2):])
+            res.append(t[:a.start(0)] + t[a.end(0):])          # attribute missing
+    return res
+
+
+ATTR0 = re.compile(r'([\w:.-]+)="([^"]*)"')
+TEMPLATES = _templates()
+
 DIFF_DOC = '''<?xml version="1.0" encoding="UTF-8"?>
 <!DOCTYPE topologydiff SYSTEM "hwloc2-diff.dtd">
 <topologydiff refname="ref.xml">
@@ -88,6 +138,31 @@ def apply_recipe(text, recipe):
             if a["end"] > b["start"]:
                 continue           # nested: not a swap
             text = text[:a["start"]] + text[b["start"]:b["end"]] + text[a["end"]:b["start"]] + text[a["start"]:a["end"]] + text[b["end"]:]
+        elif op == "cutat":
+            e, a, w = m[1], m[2], m[3]
+            if e > n or a > len(d.elems[e - 1]["attrs"]):
+                continue
+            el = d.elems[e - 1]
+            if a == 0:
+                close = el["open_end"] - (2 if text[el["open_end"] - 2:el["open_end"]] == "/>" else 1)
+                at = [el["start"], el["start"] + 1 + len(el["name"]), close, el["open_end"]][w - 1]
+            else:
+                name, vs, ve, as_, ae = el["attrs"][a - 1]
+                at = [as_ + len(name), vs, vs + (ve - vs + 1) // 2, ve][w - 1]
+            text = text[:at]
+        elif op == "doctype":
+            line = DOCTYPES[(m[1] - 1) % len(DOCTYPES)]
+            if re.search(r"<!DOCTYPE[^>]*>\n?", text):
+                text = re.sub(r"<!DOCTYPE[^>]*>\n?", lambda mm: line + ("\n" if line else ""), text, count=1)
+            else:
+                text = re.sub(r"(<\?xml[^>]*\?>\n?)", lambda mm: mm.group(1) + line + "\n", text, count=1)
+        elif op == "retype":
+            e, k = m[1], m[2]
+            if e > n or d.elems[e - 1]["name"] != "object":
+                continue
+            el = d.elems[e - 1]
+            selfclose = text[el["open_end"] - 2:el["open_end"]] == "/>"
+            text = text[:el["start"]] + "<object " + TEMPLATES[(k - 1) % len(TEMPLATES)] + ("/>" if selfclose else ">") + text[el["open_end"]:]
         elif op == "truncate":
             text = text[:len(text) * m[1] // 16]
         elif op == "setversion":
@@ -120,12 +195,28 @@ def base_documents(ctx, exe_topo):
 
 def mc_module(doc):
     n, attrs = doc.shape()
-    return ("---- MODULE MC_XmlMut_gen ----\nEXTENDS MC_XmlMut\nGNAttr == <<%s>>\n====\n" % ", ".join(map(str, attrs)), n)
+    objs = [str(i + 1) for i, e in enumerate(doc.elems) if e["name"] == "object"]
+    return ("---- MODULE MC_XmlMut_gen ----\nEXTENDS MC_XmlMut\nGNAttr == <<%s>>\nGObjElems == {%s}\n====\n" % (", ".join(map(str, attrs)), ", ".join(objs)), n)
 
 
 def mc_cfg(n, maxmut, simlen, sim):
-    return ("SPECIFICATION Spec\nCONSTANTS\n  NElem = %d\n  NAttr <- GNAttr\n  NVals = %d\n  NVers = %d\n  MaxMut = %d\n  SimLen = %d\nINVARIANTS RecipeOK %s\nCHECK_DEADLOCK FALSE\n"
-            % (n, len(VALS), len(VERS), maxmut, simlen, "EmitSim" if sim else "EmitState"))
+    return ("SPECIFICATION %s\nCONSTANTS\n  NElem = %d\n  NAttr <- GNAttr\n  ObjElems <- GObjElems\n  NVals = %d\n  NVers = %d\n  NDoctypes = %d\n  NTemplates = %d\n  MaxMut = %d\n  SimLen = %d\nINVARIANTS RecipeOK %s\nCHECK_DEADLOCK FALSE\n"
+            % ("SpecSim" if sim else "Spec", n, len(VALS), len(VERS), len(DOCTYPES), len(TEMPLATES), maxmut, simlen, "EmitSim" if sim else "EmitState"))
+
+
+def by_kind(recipes, keep, rng):
+    """seeded sample spread evenly over the mutation kinds (rare kinds are taken whole)"""
+    groups = {}
+    for r in recipes:
+        groups.setdefault(r[0][0], []).append(r)
+    for g in groups.values():
+        rng.shuffle(g)
+    res = []
+    while len(res) < keep and any(groups.values()):
+        for k in sorted(groups):
+            if groups[k] and len(res) < keep:
+                res.append(groups[k].pop())
+    return res
 
 
 def run(ctx, replay=None):
@@ -136,8 +227,7 @@ def run(ctx, replay=None):
     def mk_replay(imp):
         def replay_fn(text):
             # a replay carries its document inline: "#doc <hex>" line
-            m = re.search(r"^#doc (\S+) ([0-9a-f]*)$", text, re.M)
-            if m:
+            for m in re.finditer(r"^#doc (\S+) ([0-9a-f]*)$", text, re.M):
                 os.makedirs(os.path.dirname(m.group(1)), exist_ok=True)
                 open(m.group(1), "wb").write(bytes.fromhex(m.group(2)))
             p = ctx.path("replay-%d.beh" % random.randrange(1 << 30))
@@ -198,7 +288,7 @@ def run(ctx, replay=None):
         multi = list(vlib.tlc_printed(out, "SIM"))
         keep1 = len(singles) if (thorough and not big) else min(len(singles), 2500 if thorough else 400)
         keepm = min(len(multi), 4000 if thorough else 150)
-        picks = (singles if keep1 == len(singles) else rng.sample(singles, keep1)) + (multi if keepm == len(multi) else rng.sample(multi, keepm))
+        picks = (singles if keep1 == len(singles) else by_kind(singles, keep1, rng)) + (multi if keepm == len(multi) else rng.sample(multi, keepm))
         ctx.extra["recipes_" + name] = {"single_enumerated": len(singles), "single_used": keep1, "multi_used": keepm, "elements": n}
         nrec += len(picks)
         for r in picks:
@@ -220,28 +310,33 @@ def run(ctx, replay=None):
     add("", "diff", 0)
 
     behs = []
+    good = [it for it in items if it[2] == 1 and it[1] == "topo"]          # pristine documents: what a failed topology is given next (after = 2)
     for p, kind, pristine, b in items:
         mode = rng.choice(["buffer", "file"])
         head = "#doc %s %s\n" % (p, b.hex())
         if kind == "diff":
             behs.append(head + "reset\ndiffload %s %s %d\n" % (p, mode, pristine))
         else:
-            behs.append(head + "reset\nxmlload %s %s %d %d %d %d\n" % (p, mode, rng.choice([0, 0, 1, 8, 9]), rng.choice([1, 1, 0]), pristine, rng.randrange(2)))
+            after = rng.randrange(3)
+            g = rng.choice(good)
+            if after == 2:
+                head += "#doc %s %s\n" % (g[0], g[3].hex())
+            behs.append(head + "reset\nxmlload %s %s %d %d %d %d %s\n" % (p, mode, rng.choice([0, 0, 1, 8, 9]), rng.choice([1, 1, 0]), pristine, after, g[0]))
     ctx.samples = [behs[0][behs[0].index("reset"):], behs[len(behs) // 2][-200:], behs[-1][-200:]]
     bf = ctx.path("behaviours.txt")
-    open(bf, "w").write("".join(x[x.index("\n") + 1:] for x in behs))         # the recorder does not need the inline bytes
+    open(bf, "w").write("".join(x[x.index("reset\n"):] for x in behs))         # the recorder does not need the inline bytes
     for imp in (["0", "1"] if thorough else [str(ctx.seed % 2), str(1 - ctx.seed % 2)]):
         tf = ctx.path("trace-%s.ndjson" % imp)
         e = dict(env_base)
         e["HWLOC_LIBXML_IMPORT"] = imp
         ctx.record(exe, bf, tf, timeout=3000, parallel=vlib.NCPU, env=e)
-        rejs = ctx.validate("TraceXmlLoad", tf, nshards=32 if thorough else 16, timeout=3000, max_rej=30)
+        rejs = ctx.validate("TraceXmlLoad", tf, nshards=32 if thorough else 16, timeout=3000, max_rej=int(os.environ.get("HWV_MAXREJ", "30")))
         ctx.handle_rejections(rejs, ["# import backend %s\n" % imp + x for x in behs], mk_replay(imp))
         os.unlink(tf)
     return ctx.finish(
         rule="documents = hwloc's own v3 and v2 exports of an annotated topology (infos, cpukinds, distances, Misc, Group, userdata) and of one with an I/O subtree, a diff document"
              "%s; TLC enumerates every single structure-aware mutation (drop/set/duplicate attribute with a boundary value pool, duplicate/drop/swap element, truncate, set version) of each "
-             "and simulates 2-3 mutation recipes (MC_XmlMut.tla); plus truncation at offsets, bit flips and random bytes from VERIF_SEED; each document is loaded by the ASan+UBSan+LSan "
+             "and simulates 2-3 mutation recipes (MC_XmlMut.tla; also: the document ends at 4 points of every start tag and 4 points of every attribute, the DOCTYPE line is replaced from a pool, an object gets the whole attribute list of another type with one attribute damaged or missing); a failed topology is destroyed, reconfigured, or given a pristine document and compared with a fresh load of it; plus truncation at offsets, bit flips and random bytes from VERIF_SEED; each document is loaded by the ASan+UBSan+LSan "
              "recorder with a watchdog under both XML import backends and judged by the lifecycle relation + WellFormed. Non-trivial = a document that differs from the pristine export."
              % (" and five bundled XML files" if thorough else ""),
         assumptions=["absence of out-of-bounds access, use of freed memory and leaks is observed by the sanitizers in the recorder on the documents that were run, not decided by the specification",
